@@ -1101,7 +1101,10 @@ func (l *Local) canDispose() bool {
 	return len(l.ipv4.InUse()) == 0 &&
 		len(l.ipv6.InUse()) == 0 &&
 		l.allocatingV4.Len() == 0 &&
-		l.allocatingV6.Len() == 0
+		l.allocatingV6.Len() == 0 &&
+		// requests already served by the factory but not yet committed still need this eni
+		l.dangingV4.Len() == 0 &&
+		l.dangingV6.Len() == 0
 }
 
 // syncIPLocked will mark ip as invalid , if not found in remote
